@@ -25,10 +25,10 @@ CHECKS = {
         note="Encoders/decoders are modelled by hand (Model/Encode.lean) and tied by correspondence; tables are verified "
              "against the source on every run."),
     "C01": dict(
-        technique="Lean 4 proof: the path builder of the parser (model of helpers::parse_prepared_path: signature, trivial / "
-                  "fast / general code paths, shorten_path, hash-table dot-segment tests, drive letters) equals the Standard's "
-                  "path state for every input; perfect-hash scheme lookup over regenerated tables; models tied to the code call "
-                  "by call; WPT-validated Lean Spec of the basic URL parser run against both URL types (correspondence)",
+        technique="Lean 4 proof: statement-by-statement models of parse_url_impl (ada::url and url_aggregator instantiations, "
+                  "without and with a base, fast path, path builder, scheme lookup, length limit) proved equal to a WPT-validated "
+                  "Lean transcription of the WHATWG basic URL parser for every input and base (one side condition on brackets, "
+                  "IDNA as a parameter); models run against the real parsers call by call; Spec run against both URL types",
         text="Lean 4: a structured transcription of the WHATWG basic URL parser, host parsers and serializer (Spec/Url.lean, "
              "Spec/Host.lean) validated on every run against all WPT url vectors. Theorems for all byte strings: "
              "path_builder_is_path_state - Model/PathPrepared.lean (statement-by-statement model of "
@@ -100,9 +100,10 @@ CHECKS = {
              "both types (url_set_href_end_to_end_partial, aggregator_set_href_end_to_end_partial: it is the parser of C01 / "
              "C04 plus the size checks, same side condition; replayed on every real set_href step and in the editor run)."),
     "C04": dict(
-        technique="Lean 4 proof that the model of ada::url (get_href fast/general path, get_href_size, get_components) "
-                  "computes the aggregator's layout for the same content; model tied to the real ada::url on every state; "
-                  "lock-step differential of the two C++ types on generated histories",
+        technique="Lean 4 proof that the models of the two types agree: ada::url's serialisers and components compute the "
+                  "aggregator's layout, all ten setters and the origin getter agree, and the two instantiations of the parser "
+                  "(without and with a base) stay in step for every input; models tied to the real objects on every state and "
+                  "call; lock-step differential of the two C++ types on generated histories",
         text="Props/C04.lean (Model/UrlRec.lean transcribes url-inl.h): for every record the [[likely]] fast path of "
              "get_href equals the general path, get_href_size is the length of get_href, get_href is the buffer that "
              "url_aggregator lays out for the same content (layout o toL) and get_components recomputes exactly the "
@@ -237,9 +238,10 @@ CHECKS = {
 
     "C08": dict(
         technique="Lean 4 proof: a statement-by-statement model of the fast scanner try_can_parse_absolute_fast (and the "
-                  "decimal IPv4 kernel it calls) gives only correct definite answers, for every input (FastSound theorem); "
-                  "size-decision table of can_parse proved for all lengths/limits; model tied to the real scanner on every "
-                  "generated input; can_parse vs parse on the implementation under aimed limits",
+                  "decimal IPv4 kernel it calls) gives only correct definite answers, for every input (FastSound theorem); the "
+                  "validation-only instantiation of the parser gives the storing parser's verdict for every input and base; "
+                  "size-decision table of can_parse proved for all lengths/limits; models tied to the real scanner and the real "
+                  "validation-only parser on every generated input; can_parse vs parse on the implementation under aimed limits",
         text="Lean 4: Model/FastScan.lean transcribes try_can_parse_absolute_fast (trimming, http(s) shortcut, 7-byte scheme "
              "window, merged authority/host scan with its xn--, forbidden-byte and IPv4 bookkeeping, last-significant-character "
              "heuristic, port validation) and parse_ipv4_decimal_scalar. Theorem fast_scanner_sound: for every input and every "
